@@ -7,13 +7,20 @@ probe.  Oracle: structurally equal value, or cohdl rejects; where CPython raises
 TypeError (family `sig`) cohdl must reject.  and/or are compared by truth value (the reference wraps every
 BoolOp in bool()).  Cases for which CPython raises anything else carry no claim and are only counted.
 
-Families (generators in verif/gen/c10_*.py):
-  sig   signatures x call shapes x placements
-  ops   binary/reflected/comparison/unary/augmented dunder dispatch
-  cls   inheritance, super(), properties, __call__, class/static methods, isinstance/type
-  clo   closures, nonlocal, local functions / lambdas, late binding
-  expr  typed expression grammar: displays, starred, subscripts/slices, comprehensions, if-exp, chains, builtins
-  stmt  statement programs: starred targets, constant if/for, comprehension scoping
+Families (generators in verif/gen/c10_*.py; each module docstring states its grammar), bound quick | thorough:
+  sig   signatures x call shapes x placements: <=3 parameters at module level + <=2 parameters in 5 more placements
+        + duplicate-keyword shapes for <=1 parameter + one seed-chosen extra placement (<=2 parameters)
+        | <=3 parameters in all 11 placements + duplicate-keyword shapes for <=2 parameters in 6 placements
+  ops   binary/reflected/comparison/unary/truth/augmented dunder dispatch: all operators x operand relations x
+        method specs (same in both tiers)
+  cls   inheritance, super(), __init__ chains, properties, __call__, class/static methods, isinstance/type matrices
+  clo   closures: all scope trees of depth 2 and 3, loop capture, recursion, higher-order idioms
+  expr  typed expression grammar: depth 1 (all atoms) + depth 2 (representative atoms)
+        | depth 2 with all atoms of the inner operator + depth 3 chains
+  stmt  starred/nested targets x sources, constant if/elif/else shapes x conditions x values, for/comprehension scoping
+
+Many CPython-accepted cases share one compiled entity (BATCH probes); a rejected batch is re-run case by case, and every
+reported violation is re-confirmed alone in the parent process before it is recorded.
 """
 from __future__ import annotations
 
